@@ -165,6 +165,96 @@ func runCP(c *Ctx, s *Sink) {
 		}
 		o.Pos = fmt.Sprintf("pkg/obiapat/obiapat.c:%d", line)
 	}
+	// (1ter) the error budget is bounded by the arrays of the automaton; the circular repeat wraps
+	key = "pkg/obiapat/obiapat.c:buildPattern:error-budget-bounded"
+	if fn, err := clangFunc(dir, "obiapat.c", "buildPattern"); err != nil {
+		s.Undecided(nil, key, 0, err.Error())
+	} else {
+		// the parameter of type int32_t other than the pattern: error_max
+		errVar := ""
+		fn.walk(func(n *cnode, _ []*cnode) {
+			if n.Kind == "ParmVarDecl" && strings.Contains(strings.ToLower(n.Name), "err") && strings.Contains(strings.ToLower(n.Name), "max") {
+				errVar = n.ID
+			}
+		})
+		guarded := false
+		fn.walk(func(n *cnode, _ []*cnode) {
+			if n.Kind != "IfStmt" || len(n.Inner) < 2 || errVar == "" {
+				return
+			}
+			upper := false
+			n.Inner[0].walk(func(m *cnode, _ []*cnode) {
+				if m.Kind == "BinaryOperator" && (m.Op == ">" || m.Op == ">=") && len(m.Inner) == 2 && m.Inner[0].refs(errVar) {
+					if k, ok := cIntValue(m.Inner[1]); ok && ((m.Op == ">=" && k <= 64) || (m.Op == ">" && k <= 63)) {
+						upper = true
+					}
+				}
+			})
+			returns := false
+			n.Inner[1].walk(func(m *cnode, _ []*cnode) {
+				if m.Kind == "ReturnStmt" {
+					returns = true
+				}
+			})
+			if upper && returns {
+				guarded = true
+			}
+		})
+		var o *Ob
+		switch {
+		case errVar == "":
+			o = s.add(Undecided, nil, key, 0, "no error-budget parameter in buildPattern")
+		case guarded:
+			o = s.add(Pass, nil, key, 0, "a budget of 64 errors or more is refused")
+		default:
+			o = s.add(Violation, nil, key, 0, "the number of errors is not bounded: ManberSub and ManberIndel keep their state in r[2*MAX_PAT_ERR+2] (MAX_PAT_ERR = 64) and index it up to 2*maxerr+3 — obipcr -e 64 dies on SIGSEGV inside ManberAll where -e 63 works")
+		}
+		o.Pos = fmt.Sprintf("pkg/obiapat/obiapat.c:%d", cLine(fn))
+	}
+	key = "pkg/obiapat/obiapat.c:EncodeSequence:circular-repeat-wraps"
+	if fn, err := clangFunc(dir, "obiapat.c", "EncodeSequence"); err != nil {
+		s.Undecided(nil, key, 0, err.Error())
+	} else {
+		nloop, wraps := 0, false
+		fn.walk(func(n *cnode, _ []*cnode) {
+			if n.Kind != "ForStmt" {
+				return
+			}
+			circ := false
+			n.walk(func(m *cnode, _ []*cnode) {
+				if m.Kind == "MemberExpr" && m.Name == "circular" {
+					circ = true
+				}
+			})
+			if !circ {
+				return
+			}
+			nloop++
+			n.walk(func(m *cnode, _ []*cnode) {
+				if m.Kind == "BinaryOperator" && m.Op == "%" {
+					wraps = true
+				}
+			})
+		})
+		var o *Ob
+		switch {
+		case nloop == 0:
+			o = s.add(Pass, nil, key, 0, "no loop over the circular repeat")
+		case wraps:
+			o = s.add(Pass, nil, key, 0, "the repeat appended to a circular sequence reads its input modulo the length of the sequence")
+		default:
+			o = s.add(Violation, nil, key, 0, "the repeat appended to a circular sequence copies the first 64 bytes of the input whatever its length: for a circle shorter than 64 nt it reads beyond the sequence, and the amplicons found depend on what that memory held (circle caa, primers ACAAC and T: [a] or [] according to the history of a recycled buffer)")
+		}
+		line := fn.Range.Begin.Line
+		if line == 0 {
+			var loc struct {
+				Line int `json:"line"`
+			}
+			_ = json.Unmarshal(fn.Loc, &loc)
+			line = loc.Line
+		}
+		o.Pos = fmt.Sprintf("pkg/obiapat/obiapat.c:%d", line)
+	}
 	// (2)
 	key = "pkg/obiapat/obiapat.c:no-characterwise-pattern-reversal"
 	bad := ""
@@ -501,4 +591,16 @@ func locateFragment(info *types.Info, call *ast.CallExpr) ast.Expr {
 		}
 	}
 	return out
+}
+
+// cLine: the line of a clang node (clang omits range.begin.line when it is the line of the previous node: loc has it).
+func cLine(n *cnode) int {
+	if n.Range.Begin.Line != 0 {
+		return n.Range.Begin.Line
+	}
+	var loc struct {
+		Line int `json:"line"`
+	}
+	_ = json.Unmarshal(n.Loc, &loc)
+	return loc.Line
 }
